@@ -694,7 +694,8 @@ func runC16(c *Ctx) {
 	if c.Tier == "thorough" {
 		lifeMetricsInflight(c, 35)
 	}
-	lifeMetricsStalled(c)
+	lifeMetricsStalled(c, "metrics")
+	lifeMetricsStalled(c, "profile")
 	for i := 0; i < 8; i++ {
 		lifeMetrics(c, i%4 != 0)
 		lifeMetrics(c, true)
@@ -1057,8 +1058,8 @@ func lifeMetricsInflight(c *Ctx, secs int) {
 
 // life.metrics_stalled: a client of the metrics port announces a request body and never sends it, and keeps its
 // connection open. Stop must complete all the same (D37), the port must be free and nothing of the server left.
-func lifeMetricsStalled(c *Ctx) {
-	op := "life.metrics_stalled"
+func lifeMetricsStalled(c *Ctx, kind string) {
+	op := "life.metrics_stalled kind=" + kind
 	c.Begin(op)
 	obs := func() (o string) {
 		defer func() {
@@ -1082,7 +1083,14 @@ func lifeMetricsStalled(c *Ctx) {
 			return "no-connection"
 		}
 		defer conn.Close()
-		_, _ = conn.Write([]byte("GET /metrics HTTP/1.1\r\nHost: x\r\nContent-Length: 10\r\n\r\n"))
+		// kind=metrics: the handler returns at once and net/http waits for the announced body;
+		// kind=profile: the handler itself runs for 30 s, and with the body unread net/http does not watch the connection,
+		// so closing it does not cancel the request — only the server's base context does
+		path := "/metrics"
+		if kind == "profile" {
+			path = "/debug/pprof/profile?seconds=30"
+		}
+		_, _ = conn.Write([]byte("GET " + path + " HTTP/1.1\r\nHost: x\r\nContent-Length: 10\r\n\r\n"))
 		// the server is now waiting for the rest of the request (net/http wants the announced body before it answers)
 		time.Sleep(300 * time.Millisecond)
 		res := srv.Stop()
